@@ -1109,6 +1109,14 @@ public:
       return;
     }
 
+    // dst_rgn is overwritten: if its new content cannot be tracked
+    // then the old content of its ghost variables must not survive.
+    auto forget_dst_ghost_vars = [this](const variable_t &rgn) {
+      if (boost::optional<ghost_variables_t> gvars = get_gvars(rgn)) {
+        (*gvars).forget(m_base_dom);
+      }
+    };
+
     if (crab_domain_params_man::get().region_allocation_sites()) {
       m_alloc_env.set(dst_rgn, m_alloc_env.at(src_rgn));
     }
@@ -1134,6 +1142,7 @@ public:
       if (!has_dynamic_type(dst_rgn, dst_dyn_type)) {
         // skip assign ghost variables
         crab::CrabStats::count(domain_name() + ".count.region_cast.skipped");
+        forget_dst_ghost_vars(dst_rgn);
       } else {
         if (type_value(src_rgn.get_type()) <= dst_dyn_type) {
           // make sure dynamic types of src and dst are compatible
@@ -1142,6 +1151,7 @@ public:
           crab::CrabStats::count(
               domain_name() +
               ".count.region_cast.skipped.inconsistent_dynamic_type");
+          forget_dst_ghost_vars(dst_rgn);
         }
       }
     } else {
@@ -1156,6 +1166,7 @@ public:
       if (!has_dynamic_type(src_rgn, src_rgn_info.type_val())) {
         // skip assign ghost variables
         crab::CrabStats::count(domain_name() + ".count.region_cast.skipped");
+        forget_dst_ghost_vars(dst_rgn);
       } else {
         if (type_value(dst_rgn.get_type()) <= src_rgn_info.type_val()) {
           // make sure dynamic types of src and dst are compatible
@@ -1164,6 +1175,7 @@ public:
           crab::CrabStats::count(
               domain_name() +
               ".count.region_cast.skipped.inconsistent_dynamic_type");
+          forget_dst_ghost_vars(dst_rgn);
         }
       }
     }
